@@ -2,6 +2,7 @@ package gen
 
 import (
 	"fmt"
+	"unicode/utf8"
 
 	"github.com/datastax/go-cassandra-native-protocol/datatype"
 	"github.com/datastax/go-cassandra-native-protocol/message"
@@ -170,12 +171,34 @@ func columnMetadata(t *rapid.T, v primitive.ProtocolVersion, depth int, sameTabl
 	return c
 }
 
+// fit leaves room for a one-character suffix within the 65535 bytes of a [string] (cut at a rune boundary).
+func fit(s string) string {
+	for len(s) > 65534 {
+		s = s[:len(s)-1]
+	}
+	for len(s) > 0 && !utf8.ValidString(s) {
+		s = s[:len(s)-1]
+	}
+	return s
+}
+
 func columns(t *rapid.T, v primitive.ProtocolVersion, n, depth int, label string) []*message.ColumnMetadata {
-	same := rapid.Bool().Draw(t, label+"/sameTable")
+	// all columns of one table (global table spec) / each column from its own table / near misses of "one table": the
+	// same table name in different keyspaces, different tables of one keyspace, one stray column among same-table ones
+	mode := rapid.IntRange(0, 7).Draw(t, label+"/tableMode")
+	same := mode <= 2
 	ks, tb := Str(t, label+"/gks"), Str(t, label+"/gtable")
 	cols := make([]*message.ColumnMetadata, n)
 	for i := range cols {
-		cols[i] = columnMetadata(t, v, depth, same, ks, tb, fmt.Sprintf("%s/c%d", label, i))
+		cols[i] = columnMetadata(t, v, depth, same || mode >= 5, ks, tb, fmt.Sprintf("%s/c%d", label, i))
+		switch {
+		case mode == 5: // same table name, keyspaces differ
+			cols[i].Keyspace = fmt.Sprintf("%s%d", fit(ks), i%2)
+		case mode == 6: // same keyspace, table names differ
+			cols[i].Table = fmt.Sprintf("%s%d", fit(tb), i%2)
+		case mode == 7 && i == n-1 && n > 1: // only the last column is from elsewhere
+			cols[i].Keyspace = fit(ks) + "x"
+		}
 	}
 	return cols
 }
